@@ -238,6 +238,67 @@ def g_lapped(rng, i, **kw):
         scripts[0].append("drop")
     return scen.Scn("lapped%d" % i, fl, "plain", cap, wk, sf, sy, scripts, sched, limit=1500, tags=("lapped",))
 
+def g_pinned(rng, i, **kw):
+    """a consumer of a shared stream is frozen in the middle of cloning out of a slot (pinned), a sibling drains the
+    ring, then a producer (single- or multi-writer mode) runs a try_send alone against the pinned slot"""
+    cap = rng.choice([1, 2, 2, 4])
+    n = cap_n(cap)
+    wk = rng.choice(["busy", "yield"])
+    sf, sy = (0, 0) if wk == "busy" else _spins(rng)
+    scripts = {0: [], 1: ["clone:2"], 2: []}
+    sched = ["1*"]
+    multi = rng.random() < 0.7
+    if multi:
+        scripts[0].append("clone:3"); scripts[3] = []; sched.append("0*")
+    val = 1
+    for _ in range(n):
+        scripts[0].append("send:%d" % val); val += 1; sched.append("0*")
+    scripts[1].append("recv")
+    sched += ["1"] * rng.choice([7, 7, 8, 8, 9])
+    for _ in range(n):
+        scripts[2].append("recv"); sched.append("2*")
+    prod = 3 if multi and rng.random() < 0.7 else 0
+    for _ in range(rng.choice([1, 2])):
+        scripts[prod].append("send:%d" % val); val += 1; sched.append("%d*" % prod)
+    sched.append("1*")
+    for a in scripts:
+        scripts[a].append("drop")
+    return scen.Scn("pinned%d" % i, "B", "plain", cap, wk, sf, sy, scripts, sched, limit=1200, tags=("pinned", "solo"))
+
+def g_norecv_churn(rng, i, **kw):
+    """enough handle churn to open a reclamation epoch, then every receiver leaves, then the (so far idle) senders send"""
+    fl = kw.get("fl") or rng.choice("BBM")
+    kind = rng.choice(["plain", "plain", "fut"])
+    if kind == "fut":
+        wk, sf, sy = ("fut", 50, 50) if fl == "M" else ("fut", 0, 0)
+    else:
+        wk, sf, sy = "busy", 0, 0
+    cap = rng.choice([1, 2, 4])
+    scripts = {0: [], 1: []}
+    sched = []
+    nxt = 2
+    senders = [0]
+    if rng.random() < 0.4:
+        scripts[0].append("clone:%d" % nxt); scripts[nxt] = []; senders.append(nxt); sched.append("0*"); nxt += 1
+    cycles = rng.choice([7, 8, 9, 12]) if fl == "B" else rng.choice([22, 24, 26])
+    for _ in range(cycles):
+        a = nxt; nxt += 1
+        if fl == "B" and rng.random() < 0.85:
+            scripts[1].append("addstream:%d" % a)
+        else:
+            scripts[1].append("clone:%d" % a)
+        scripts[a] = [rng.choice(["drop", "unsub"])]
+        sched.extend(["1*", "%d*" % a])
+    scripts[1].append(rng.choice(["drop", "unsub"])); sched.append("1*")
+    val = 1
+    snd = ["send:%d"] if kind == "plain" else ["send:%d", "ssend:%d"]
+    for sd in senders:
+        for _ in range(rng.choice([1, 2, 3])):
+            scripts[sd].append(rng.choice(snd) % val); val += 1; sched.append("%d*" % sd)
+    for sd in senders:
+        scripts[sd].append("drop")
+    return scen.Scn("nrchurn%d" % i, fl, kind, cap, wk, sf, sy, scripts, sched, limit=9000, tags=("norecv", "churn"))
+
 def g_fut(rng, i, **kw):
     """sink tasks and stream tasks that await notifications"""
     fl = kw.get("fl") or rng.choice("BBM")
@@ -519,7 +580,7 @@ def g_solo(rng, i, **kw):
 
 GENS = {"seq": g_seq, "rand": g_rand, "pc": g_pc, "view": g_view, "teardown": g_teardown, "disc": g_disc,
         "norecv": g_norecv, "block": g_block, "fut": g_fut, "churn": g_churn, "quiesce": g_quiesce,
-        "addstream": g_addstream, "unsub": g_unsub, "handles": g_handles, "futseq": g_futseq, "solo": g_solo, "reclaim": g_reclaim, "lapped": g_lapped}
+        "addstream": g_addstream, "unsub": g_unsub, "handles": g_handles, "futseq": g_futseq, "solo": g_solo, "reclaim": g_reclaim, "lapped": g_lapped, "pinned": g_pinned, "norecv_churn": g_norecv_churn}
 
 # ---------------------------------------------------------------- small scenarios for exhaustive schedules
 def smalls_ring():
@@ -536,13 +597,13 @@ PROPS = {
     "C01": {"gens": [("seq", 30, {}), ("rand", 60, {}), ("pc", 80, {})], "small": smalls_ring(), "oracles": ["C01"]},
     "C02": {"gens": [("rand", 50, {}), ("pc", 100, {})], "small": smalls_ring(), "oracles": ["C02", "C01"]},
     "C03": {"gens": [("rand", 40, {}), ("pc", 110, {})], "small": smalls_ring(), "oracles": ["C03"]},
-    "C04": {"gens": [("view", 100, {}), ("pc", 50, {"fl": "B"})], "small": smalls_ring()[:2], "oracles": ["C04", "C01"]},
+    "C04": {"gens": [("view", 90, {}), ("pc", 40, {"fl": "B"}), ("pinned", 30, {})], "small": smalls_ring()[:2], "oracles": ["C04", "C01"]},
     "C05": {"gens": [("teardown", 110, {}), ("rand", 40, {})], "small": smalls_ring()[:2], "oracles": ["C05"]},
     "C07": {"gens": [("disc", 130, {}), ("rand", 30, {})], "small": [], "oracles": ["C07"]},
-    "C13": {"gens": [("norecv", 130, {}), ("rand", 20, {})], "small": [], "oracles": ["C13"]},
+    "C13": {"gens": [("norecv", 110, {}), ("norecv_churn", 24, {}), ("rand", 20, {})], "small": [], "oracles": ["C13"]},
     "C06": {"gens": [("quiesce", 150, {})], "small": [], "oracles": ["C06"]},
     "C08": {"gens": [("block", 130, {}), ("lapped", 40, {})], "small": [], "oracles": ["C08"]},
-    "C09": {"gens": [("seq", 110, {}), ("futseq", 50, {})], "small": [], "oracles": ["C09"]},
+    "C09": {"gens": [("seq", 100, {}), ("futseq", 45, {}), ("norecv_churn", 16, {})], "small": [], "oracles": ["C09"]},
     "C10": {"gens": [("addstream", 150, {})], "small": [], "oracles": ["C01", "C03", "C10"]},
     "C11": {"gens": [("unsub", 150, {})], "small": [], "oracles": ["C11", "C01", "C03"]},
     "C12": {"gens": [("handles", 150, {})], "small": smalls_ring()[:1], "oracles": ["C01", "C02", "C03"]},
@@ -550,7 +611,7 @@ PROPS = {
     "C15": {"gens": [("futseq", 90, {}), ("fut", 60, {})], "small": [], "oracles": ["C15", "C09", "C01"]},
     "C16": {"gens": [("reclaim", 40, {}), ("churn", 50, {}), ("rand", 30, {})], "small": [], "oracles": ["C16"]},
     "C17": {"gens": [("reclaim", 20, {}), ("churn", 50, {}), ("teardown", 60, {})], "small": [], "oracles": ["C17"]},
-    "C18": {"gens": [("solo", 150, {})], "small": [], "oracles": ["C18"]},
+    "C18": {"gens": [("solo", 120, {}), ("pinned", 40, {})], "small": [], "oracles": ["C18"]},
 }
 
 def nontrivial_rule(pid):
